@@ -224,6 +224,17 @@ func c10Run(cs c10Case) (sig, what string, rec obj) {
 		if err := decorator.NewRestorerWithImports(pkgPath, simple.New(names)).Fprint(&buf, tf); err != nil {
 			return "", tf, fmt.Errorf("restore: %v", err)
 		}
+		// the same file once more through a restorer that restores the object graph too (Extras): the moved
+		// identifiers still carry the objects of the package they came from, next to their paths
+		var xbuf bytes.Buffer
+		xr := decorator.NewRestorerWithImports(pkgPath, simple.New(names))
+		xr.Extras = true
+		if err := xr.Fprint(&xbuf, tf); err != nil {
+			return "", tf, fmt.Errorf("restore with Extras: %v", err)
+		}
+		if xbuf.String() != buf.String() {
+			return "", tf, fmt.Errorf("restore with Extras prints the target differently:\n%s\nwithout Extras:\n%s", xbuf.String(), buf.String())
+		}
 		return buf.String(), tf, nil
 	}
 	var out string
